@@ -141,8 +141,10 @@ def main(argv=None):
     ev["wall_s"] = round(time.time() - t0, 2)
     if ev["level"] == "proof" and pstats and pstats["obligations"] != pstats["discharged"] and not violations:
         ev["level"] = "other"
-    os.makedirs(os.path.join(ROOT, "evidence"), exist_ok=True)
-    json.dump(ev, open(os.path.join(ROOT, "evidence", f"{a.prop}.json"), "w"), indent=1, default=str)
+    # evidence of runs against a scratch copy of the repository (VF_REPO, used to evaluate seeded changes) is kept apart
+    evdir = "evidence" if os.environ.get("VF_REPO", "/repo") == "/repo" else os.path.join(".cache", "evidence_scratch")
+    os.makedirs(os.path.join(ROOT, evdir), exist_ok=True)
+    json.dump(ev, open(os.path.join(ROOT, evdir, f"{a.prop}.json"), "w"), indent=1, default=str)
     p = pstats or {}
     print(f"{a.prop} [{a.tier}] P: {p.get('discharged', 0)}/{p.get('obligations', 0)} obligations discharged over {len(p.get('functions', []))} functions"
           f" ({len(undecided)} undecided-tool, {len(p.get('known_obligations', []))} known-finding); "
